@@ -1206,6 +1206,14 @@ bool crash_check_b(Engine &e, const Engine::Crash &c, std::string *why)
         if (!kv.second.ok)
             continue; // already judged by (a)
         auto it = rot1.find(kv.first);
+        if (it != rot1.end() && !it->second.ok) {
+            // the name survives only as an unreadable .gz: the restarted sink deleted the intact
+            // uncompressed file and kept its incomplete compressed copy - not a retention removal
+            // (retention removes a rotated segment, it does not swap it for garbage)
+            *why = "after the restart the intact rotated file " + kv.first + " is gone while its incomplete compressed copy "
+                    + kv.first + ".gz was kept (" + it->second.err + ")";
+            return false;
+        }
         if (it == rot1.end() || !it->second.ok) {
             if (!retention) {
                 *why = "after the restart rotated file " + kv.first + " is gone or unreadable (no retention limit in force)";
